@@ -28,9 +28,9 @@ func runCaseC07(kind string, spec json.RawMessage) (vx.Out, bool) {
 
 func checkC07(tier string) int {
 	rep := vx.NewReport("C07", tier, "exploration")
-	rep.Rule = "E5: product of body sets (all 256 one-byte bodies + all two-byte bodies over {LF,CR,NUL,0xFF,space,A} in one batch; protocol look-alikes; position-dependent patterns at sizes around every buffer / file / limit boundary up to max-msg-size) x publish path {PUB, DPUB, MPUB, HTTP /pub, /mpub text, /mpub binary} x queue path {memory, disk, disk with 64-byte files, REQ 0, REQ delayed, timeout redelivery, graceful restart} x transport {plain, snappy, deflate 1/6/9, TLS, TLS+snappy, TLS+deflate} x output buffer {default, none, 64, max without timeout} (+ a second channel), each run on a real nsqd with a consumer that really negotiates the transport; plus every 4-byte length field of PUB / DPUB / MPUB arriving in two pieces (split after 1, 2, 3 bytes) with nothing, a message frame or a heartbeat sent to that connection in between; E1: a consumer's connection breaking while it is written to, then further deliveries and disk writes (no buffer shared between two users, bodies intact). distinct = distinct (case, outcome) pairs"
+	rep.Rule = "E5: product of body sets (all 256 one-byte bodies + all two-byte bodies over {LF,CR,NUL,0xFF,space,A} in one batch; protocol look-alikes; position-dependent patterns at sizes around every buffer / file / limit boundary up to max-msg-size) x publish path {PUB, DPUB, MPUB, HTTP /pub, /mpub text, /mpub binary, /pub and /mpub binary with chunked transfer encoding} x queue path {memory, disk, disk with 64-byte files, REQ 0, REQ delayed, timeout redelivery, graceful restart} x transport {plain, snappy, deflate 1/6/9, TLS, TLS+snappy, TLS+deflate} x output buffer {default, none, 64, max without timeout} (+ a second channel), each run on a real nsqd with a consumer that really negotiates the transport; plus every 4-byte length field of PUB / DPUB / MPUB arriving in two pieces (split after 1, 2, 3 bytes) with nothing, a message frame or a heartbeat sent to that connection in between; E1: a consumer's connection breaking while it is written to, then further deliveries and disk writes (no buffer shared between two users, bodies intact). distinct = distinct (case, outcome) pairs"
 	rep.Assumptions = []string{"crypto/tls, snappy and flate are trusted", "max-msg-size is set to 65536 for the size sweep"}
-	paths := []string{"pub", "dpub", "mpub", "hpub", "hmpub", "hmpubbin"}
+	paths := []string{"pub", "dpub", "mpub", "hpub", "hmpub", "hmpubbin", "hpubchunk", "hmpubchunk"}
 	queues := []string{"mem", "disk", "disk64", "req0", "reqd", "timeout", "restart"}
 	transports := []string{"plain", "snappy", "deflate1", "deflate6", "deflate9", "tls", "tls+snappy", "tls+deflate6"}
 	outbufs := []string{"default", "-1", "64", "max"}
